@@ -330,4 +330,39 @@ example : ∀ op ∈ demoOps, op.reordersRegistry = false := by decide
 example : ((createAgents (newModel World.empty ⟨[]⟩) 0 1 false 3 [.seq [7, 8, 9], .seq [1, 2]]).info.map (·.x)) =
     [[.int 7, .seq [1, 2]], [.int 8, .seq [1, 2]], [.int 9, .seq [1, 2]]] := by decide
 
+theorem alive_copySet (w : World) (t : Target) (a : Aid) : alive (copySet w t) a = alive w a := by
+  rfl
+
+/-- **A copy shares nothing with the registry.**  After every history, `set.select()` without criteria / `copy.copy(set)`
+    (`copySet`) of any set — `model.agents`, a by-type set, a program-made set — yields a further program-made set that
+    shows (by iteration and by position) exactly the members of the original at that moment, and neither taking the copy
+    nor adding to / discarding from it afterwards changes any registry (nor who exists, who is held, who was removed,
+    nor any other program-made set).  So "`model.agents` contains exactly the agents created and not yet removed" keeps
+    holding however the program treats its copies. -/
+theorem C02_copy_of_a_set_shares_nothing (ops : List Op) (t : Target) (k : Nat) (b : Aid) :
+    let w := run World.empty ops
+    ((copySet w t).regs = w.regs ∧ (copySet w t).info = w.info ∧ (copySet w t).held = w.held ∧
+      (copySet w t).removedLog = w.removedLog ∧ (copySet w t).sets.take w.sets.length = w.sets) ∧
+    (members (copySet w t) (.set w.sets.length) = members w t ∧ itemsOf (copySet w t) (.set w.sets.length) = members w t) ∧
+    ((setAdd (copySet w t) k b).regs = w.regs ∧ (setDiscard (copySet w t) k b).regs = w.regs) := by
+  intro w
+  have hnd : (members w t).Nodup := (C02_sets_nodup_all_histories ops t).filter _
+  have hm : members (copySet w t) (.set w.sets.length) = members w t := by
+    have hal : alive (copySet w t) = alive w := funext (alive_copySet w t)
+    have hraw : rawMembers (copySet w t) (.set w.sets.length) = dedup ((members w t).filter (alive w)) := by
+      simp [rawMembers, copySet, mkSet]
+    have hf : (members w t).filter (alive w) = members w t := by simp [members]
+    rw [members, hraw, hal, hf, dedup_of_nodup hnd, hf]
+  refine ⟨⟨rfl, rfl, rfl, rfl, by simp [copySet, mkSet]⟩, ⟨hm, hm⟩, ?_, ?_⟩
+  · simp only [setAdd]; split
+    · split <;> rfl
+    · rfl
+  · simp only [setDiscard]; split <;> rfl
+
+/-- non-vacuity: three agents, one removed; the copy of `model.agents` loses a member, `model.agents` does not -/
+example : let w := run World.empty [.newModel ⟨[]⟩, .create 0 0 true [], .create 0 1 false [], .create 0 0 false [], .remove 1]
+    members (copySet w (.all 0)) (.set 0) = [0, 2] ∧
+    members (setDiscard (copySet w (.all 0)) 0 0) (.set 0) = [2] ∧
+    members (setDiscard (copySet w (.all 0)) 0 0) (.all 0) = [0, 2] := by decide
+
 end Mesa.Agents
